@@ -229,6 +229,24 @@ def batches(rng, tier):
                 note="min_less_sup, range_dim, range_size = size(), end_position, visited positions for every (min,sup) in the window "
                      "(N<=2 u 0..8, s -3..5, N=3 u 0..6, s -3..3) - empty and inverted ranges included; iterator protocol and accessors demanded")
 
+    # ---- small boxes far from the origin (coordinates around 2^31, 2^32, 2^62; signed also around -2^62)
+    ops = []
+    far_u = [2 ** 31 - 1, 2 ** 32 - 1, 2 ** 32, 2 ** 62, 2 ** 63 - 4]
+    far_s = far_u + [-2 ** 31, -2 ** 32 - 1, -2 ** 62]
+    for n in (1, 2, 3):
+        for t, far in (("u", far_u), ("s", far_s)):
+            for base in itertools.product(far, repeat=n):
+                if n == 3 and len(set(base)) == 3:
+                    continue
+                for ext in ([2] * n, [1, 3, 2][:n], [2, 0, 1][:n]):
+                    mn = list(base)
+                    sp = [b + e for b, e in zip(base, ext)]
+                    ops.append(f"range {t} {L(mn)} {L(sp)}")
+                    ops.append(f"next {t} {L([x - 1 for x in sp])} {L(mn)} {L(sp)}")
+    yield Batch("ranges-far-from-origin", ops, exhaustive=True,
+                note="pos_range / next_position on small boxes whose coordinates are around 2^31, 2^32, 2^62, 2^63-4 (long: also negative): "
+                     "no intermediate of the iteration leaves [min, sup] (next_stays_within), so nothing wraps or overflows")
+
     # ---- next_position on arbitrary current positions (also outside the range: the carry test at every index)
     ops = []
     for n in (1, 2, 3):
